@@ -28,6 +28,7 @@ pub fn make_case_opts(src: &mut Src, knobs: &Knobs, fragment: bool, latin1: bool
     o.xml_ids = true;
     o.odd_uris = true;
     o.wide_prefixes = wide_prefixes;
+    o.xml_prefix_decls = wide_prefixes;
     if knobs.variant == 5 {
         // plan bytes-cp1252: text made of the characters windows-1252 keeps in 0x80..0x9F
         o.alpha = Alpha::Cp1252;
